@@ -131,7 +131,7 @@ func descCell(v ssa.Value) string {
 			if strings.Contains(bd, "fv:") {
 				continue
 			}
-			d = replaceToken(d, "fv:"+fv.Name(), bd)
+			d = replaceToken(d, "fv:"+engine.FreeVarName(fv), bd)
 		}
 	}
 	return d
